@@ -251,6 +251,26 @@ CLAIMED = {
         "times 'ties to the earlier' is not meaningful); negative / out-of-range sample indices are not part of the statement; queries "
         "in other time units are generated only where conversion rounding cannot flip the answer; the Python harness.",
         "DESIGN.md section 6 / C17"),
+    "C18": (
+        "Coq proof over code points: print-then-parse of any unit (1100 systems x Z^3 exponents) is the identity up to Units.__eq__, value round trip under the float print/read hypothesis, meaning of each of the 47 symbols with any exponent, a/b = a.b-1, exponent text + exhaustive symbol/pair sweep, malformed stream, bit-exact double round trip",
+        "Theorems (Props/C18.v, closed under the global context): for every units system and every exponent vector in Z^3, parse_units "
+        "(print_units u d) succeeds with the same exponents and the same base unit wherever the exponent is not zero (proved through the "
+        "u-for-micro rewriting, strip, the tokeniser, the exponent reader, the symbol tables and the same-base accumulation); a quantity "
+        "printed as value, blank, units reads back with the identical value and an equivalent unit for any value type whose printer / "
+        "reader round-trip and print no blank (hypotheses of the theorem, not axioms: Python's float repr guarantee); each of the 47 "
+        "symbols with any integer exponent is read as the base units and exponents it stands for (litre family: cubic length with 3e; "
+        "molar family: amount^e . dm^-3e; their SI scales are C06's table theorem); a factor after '/' contributes the opposite exponent; "
+        "str(int) text is accepted and read back exactly; twelve families of out-of-grammar text are rejected by the model (computation). "
+        "Tied to the code on every run: every symbol and u-spelling alone and with exponents -9..9, symbol pairs x both separators (all "
+        "47^2 in thorough), random 1-3 factor strings, a malformed stream of 16 mutation families (parse_units raised or system + "
+        "dimension, compared with the model); Units(system, dims) -> str -> parse -> ==; quantity texts (glued, blank inside the units, "
+        "malformed values); 3000 finite doubles incl. subnormal / 1e-05-style / random bit patterns through str -> UnitValue bit for bit.",
+        "Trusted: Coq kernel + VM; the hand-written model of parse_units / Units.__str__ / parse_unitvalue and of Python's str.replace / "
+        "strip / split / int on the generated inputs; float() and str(float) are outside the model (judged by Python itself in the "
+        "correspondence); 'rejection' is a theorem only for the example families - for arbitrary text it is the agreement of the code with "
+        "the model (which returns None exactly when a block's name is not a symbol, its exponent text is not -?[0-9]+, or two units of one "
+        "base kind differ) on the malformed stream.",
+        "DESIGN.md section 6 / C18"),
     "C19": (
         "Coq proof over code points: parsing sums the written coefficients per label, print-then-parse returns the same coefficient for every label (all label-rule-conforming reactions), int text round trip, net change / reverse, dimension of rate constants + correspondence on equation strings (incl. malformed), printed reactions, constants, split, K and network validity",
         "Theorems (Props/C19.v, closed under the global context): for any token list the dictionary built by parsing gives every label the "
